@@ -10,8 +10,13 @@
   * `c07_illegal`: before that, a packet outside the connect exchange (and outside the QoS -1
     exception when authentication is disabled) ends the session and forwards nothing;
   * `c07_legal_when_disconnected`: the exact list of packets accepted while disconnected.
+  * **all runs** — `c07_no_session_without_connack`: after ANY sequence of timed events that does not
+    contain the broker's CONNACK 0 — client datagrams of every kind, malformed ones, other broker
+    packets (a refusing CONNACK included), every timer on the way, broker EOF, shutdown — the session
+    is `disconnected`: never active, asleep or awake (`c07_step_stays_disconnected` for one whole step).
   The monitor `Spec.c07` checks the whole-session statement on every implementation trace.
 -/
+import Bisquitt.Props.C11
 import Bisquitt.Lemmas.GwSt
 import Bisquitt.Lemmas.GwRun
 import Bisquitt.Spec.Gateway
@@ -157,5 +162,137 @@ theorem c07_illegal (g : Gw) (p : Pkt) (hl : g.packetLegal p = false) :
     (g.handleSn p).outs = g.outs ∧ (g.handleSn p).alive = false := by
   unfold handleSn
   simp [hl, fail_alive]
+
+end Bisquitt.Gw
+
+namespace Bisquitt.Gw
+open Bisquitt Gw
+
+/-! ## every run: no way out of `disconnected` without the broker's CONNACK 0 -/
+
+theorem fireDue_st (g : Gw) (d : Due) : (g.fireDue d).st = g.st := by
+  unfold fireDue
+  split
+  · unfold fireTx; split
+    · rw [txExpire_st]; rfl
+    · rfl
+  · unfold firePing; simp
+  · rfl
+
+theorem finishSession_disc (g : Gw) (h : g.st = .disconnected) : g.finishSession.st = .disconnected := by
+  unfold finishSession
+  split
+  · split
+    · exact h
+    · unfold shutdownDisconnect stopTimers emitEnd setNow
+      have h1 : ¬ (g.st = .active ∨ g.st = .awake) := by rw [h]; decide
+      simp only [h1, if_false]
+      simpa [emit] using h
+  · exact h
+
+theorem advance_disc : ∀ (fuel : Nat) (g : Gw) (t : Nat), g.st = .disconnected → (advance fuel g t).st = .disconnected := by
+  intro fuel
+  induction fuel with
+  | zero => intro g t h; simpa [advance, setNow] using h
+  | succ n ih =>
+    intro g t h
+    unfold advance
+    split
+    · simpa [setNow] using finishSession_disc g h
+    · split
+      · rename_i d _
+        exact ih _ t (finishSession_disc _ (by rw [fireDue_st]; exact h))
+      · simpa [setNow] using h
+
+theorem sample_st (g : Gw) : g.sample.st = g.st := by
+  unfold sample sampleBuf sampleReg sampleState
+  split <;> split <;> split <;> simp [emit]
+
+/-- from `disconnected`, a broker packet either leaves the session disconnected or is the CONNACK 0
+    that activates it -/
+theorem handleMq_disc (g : Gw) (p : MqPkt) (h : g.st = .disconnected) (hp : p ≠ .connack 0) :
+    (g.handleMq p).st = .disconnected := by
+  unfold handleMq
+  split
+  · rename_i rc
+    split
+    · unfold connConnack
+      split
+      · exact h
+      · split
+        · simpa using h
+        · rename_i h0
+          have : rc = 0 := by simpa using h0
+          exact absurd (by rw [this]) hp
+    · exact h
+  · split
+    · split
+      · simpa using h
+      · exact h
+    · exact h
+  · simpa using h
+  · simpa using h
+  · split
+    · split
+      · split
+        · split <;> simpa using h
+        · simpa using h
+      · exact h
+    · exact h
+  · simpa using h
+  · split
+    · exact h
+    · simpa using h
+  · simpa using h
+  · split
+    · split
+      · split
+        · exact h
+        · simpa using h
+      · exact h
+    · exact h
+  · simpa using h
+
+theorem handleEvent_disc (g : Gw) (ev : Event) (h : g.st = .disconnected) (hev : ev ≠ .mq (.connack 0)) :
+    (g.handleEvent ev).st = .disconnected := by
+  unfold handleEvent
+  split
+  · split
+    · exact c07_client_cannot_activate g _ h
+    · simpa using h
+  · rename_i p
+    exact handleMq_disc g p h (fun e => hev (by rw [e]))
+  · simpa using h
+  · split <;> simpa using h
+  · simpa using h
+  · exact h
+
+/-- **C07 (one whole step, timers included).** -/
+theorem c07_step_stays_disconnected (g : Gw) (t : Nat) (ev : Event) (h : g.st = .disconnected)
+    (hev : ev ≠ .mq (.connack 0)) : (g.step t ev).st = .disconnected := by
+  unfold step stepCore deliver
+  rw [sample_st]
+  have q1 := advance_disc 100000 g t h
+  split
+  · exact finishSession_disc _ q1
+  · exact finishSession_disc _ (advance_disc 100000 _ t (handleEvent_disc _ ev q1 hev))
+
+/-- **C07 (ALL runs).** A session that has never been sent CONNACK 0 by the broker is `disconnected`,
+    whatever the client, the broker and the clock have done: no sequence of client datagrams (CONNECT,
+    AUTH, will packets, anything else, malformed ones), broker packets other than CONNACK 0, timers,
+    broker EOF or shutdown makes it active, asleep or awake. -/
+theorem c07_no_session_without_connack (cfg : Cfg) (a b : UInt16) (evs : List (Nat × Event))
+    (h : ∀ e ∈ evs, e.2 ≠ .mq (.connack 0)) : ((Gw.init cfg a b).run evs).st = .disconnected := by
+  unfold run
+  have gen : ∀ (g : Gw), g.st = .disconnected → (∀ e ∈ evs, e.2 ≠ Event.mq (.connack 0)) →
+      (evs.foldl (fun g (te : Nat × Event) => g.step te.1 te.2) g).st = .disconnected := by
+    induction evs with
+    | nil => intro g hg _; exact hg
+    | cons e rest ih =>
+      intro g hg hq
+      simp only [List.foldl_cons]
+      exact ih (fun x hx => h x (by simp [hx])) _ (c07_step_stays_disconnected g e.1 e.2 hg (hq e (by simp)))
+        (fun x hx => hq x (by simp [hx]))
+  exact gen _ rfl h
 
 end Bisquitt.Gw
